@@ -237,7 +237,7 @@ func c17GenReqCase(g *c17Gen) *c17ReqCase {
 		}
 	}
 	c.NetSeed = t.Choose(1<<20, "netseed")
-	c.BareQuery = t.Bool(1, 6, "bare-question-mark") && c.Inline == ""
+	c.BareQuery = t.Bool(1, 3, "bare-question-mark") && c.Inline == ""
 	return c
 }
 
